@@ -336,7 +336,10 @@ def witness_search(prop, repo, rundir, seed, timeout=600, quick=False):
     if b.returncode != 0:
         return {"cases": 0, "failures": [], "error": "replay tool does not build against this tree: " + b.stderr[-400:]}
     try:
-        r = subprocess.run([os.path.join(target, "release", "replay"), "witness", prop, str(seed)] + (["quick"] if quick else []), capture_output=True, text=True, timeout=timeout)
+        emit_dir = os.path.join(rundir, "emit")
+        os.makedirs(emit_dir, exist_ok=True)
+        r = subprocess.run([os.path.join(target, "release", "replay"), "witness", prop, str(seed)] + (["quick"] if quick else []), capture_output=True, text=True, timeout=timeout,
+                           env=dict(os.environ, VERIF_EMIT_DIR=emit_dir))
     except subprocess.TimeoutExpired:
         return {"cases": 0, "failures": [], "error": "witness search timed out"}
     res = {"cases": 0, "failures": [], "error": None}
@@ -347,6 +350,7 @@ def witness_search(prop, repo, rundir, seed, timeout=600, quick=False):
             continue
         if "cases" in d:
             res["cases"] = d["cases"]
+            res["emitted_files_checked"] = d.get("emitted_files_checked", 0)
         else:
             res["failures"].append(d)
     return res
@@ -694,7 +698,12 @@ def write_evidence(prop, tier, seed, info, meta, my_units, my_clauses, fres, my_
         ev["coverage"]["bounded_differential_check"] = {
             "label": "bounded (not counted in obligations/discharged): inputs of the generated families run through the real crate and compared with an executable restatement of the property",
             "cases": witness.get("cases"), "failing": len(witness.get("failures", [])), "error": witness.get("error"),
-            "bound": "single type, <= 2 fields exhaustively (10 field types x 8 addresses x size/align/packed/vftable), 6000 random 3-4 field types; vftables <= 3 functions; enums <= 3 variants; see tools/replay/src/main.rs"}
+            "bound": "single type, <= 2 fields exhaustively (10 field types x 8 addresses x size/align/packed/vftable), 6000 random 3-4 field types; vftables <= 3 functions; enums <= 3 variants; see tools/replay/src/main.rs",
+            "backend_stand_in": {
+                "label": "bounded stand-in for src/backends/rust.rs (quote!/proc_macro2 token streams are outside Verus' reach; never counted as proved)",
+                "what": "the real write_module is run on accepted inputs; the written file is parsed with syn and each emitted item compared with the resolved item (visibility, derives, repr, docs, field order/types, size check, accessors, wrapper signature / address literal by value / ABI / call arguments, enum discriminants as rustc assigns them, AsRef/AsMut set, prologue/epilogue placement, one file per module); C19/C20 compare output bytes",
+                "emitted_files_checked": witness.get("emitted_files_checked"),
+                "bound": "the emit corpus of tools/replay/src/emit_corpus.rs (about 60 programs x pointer sizes 4 and 8) plus every 13th (quick tier: 97th) accepted input of the other families"}}
     if note:
         ev["coverage"]["note"] = note
     evdir = os.path.join(VERIF, "evidence") if os.path.realpath(REPO[0]) == "/repo" else os.path.join(WORK, "evidence-scratch")
